@@ -611,4 +611,107 @@ def statelessFilt {E α} (F : E → Except Err (List α)) : Filt Unit E (Except 
     | none => F env
     | some k => match F env with | .ok l => .ok (l.take k) | .error e => .error e)
 
+/-! # Phase 3 -/
+
+/-! ## BatchSafe on arbitrary sequences of batches.  An inner filter that treats interactions as
+opaque items (`G` below, e.g. the polymorphic selection filters at element type `Batched V`) sees
+un-batched interactions in the normal case and the *batches themselves* when the first batch is
+empty (`batch_size = 0` is falsy).  `agreesOnPlain G F`: on un-batched interactions `G` is the
+record filter `F`. -/
+
+def agreesOnPlain {V} (G : List (Batched V) → Except Err (List (Batched V)))
+    (F : List (Rec V) → Except Err (List (Rec V))) : Prop :=
+  ∀ recs, G (recs.map .plain) = (match F recs with | .error e => .error e | .ok ys => .ok (ys.map .plain))
+
+/-- an empty batch with the given keys (what `Batch` never produces but a caller can hand in) -/
+def emptyBatch {V} (ks : List String) : Batched V := .batch (ks.map (fun k => (k, [])))
+
+/-! ## Several filters per shortcut: `Environments.filter([f_0, f_1, …])` builds
+`[join(env, f) for env in envs for f in filters]`; `shuffle(seeds=…)` additionally sorts the
+members by seed (`sorted` is stable). -/
+
+def productMembers (nEnv nFilt : Nat) : List (Nat × Nat) :=
+  (List.range nEnv).flatMap (fun i => (List.range nFilt).map (fun j => (i, j)))
+
+/-- `sorted(members, key=seed of the member's filter)` -/
+def sortedMembers (seedOf : Nat → Nat) (nEnv nFilt : Nat) : List (Nat × Nat) :=
+  sortBy (fun a b => decide (a ≤ b)) (fun m : Nat × Nat => seedOf m.2) (productMembers nEnv nFilt)
+
+/-- the collection as the code holds it: member `m` is environment `i` behind filter `j` -/
+def memberEnv {E Φ} (envs : Nat → E) (filters : Nat → Φ) (members : List (Nat × Nat)) (dflt : Nat × Nat) (m : Nat) : E × Φ :=
+  let p := (members[m]?).getD dflt
+  (envs p.1, filters p.2)
+
+/-! ## Unbatch on arbitrary input (mixed plain / batched interactions, the bare `except:`).
+A value is an atom or a sequence; a cell of an interaction is a plain value or a batch column. -/
+
+inductive PV
+  | atom (t : Nat)
+  | seq (vs : List PV)
+deriving Repr
+
+inductive Cell
+  | val (v : PV)
+  | col (vs : List PV)       -- a `Batch.List`
+deriving Repr
+
+abbrev CRec := List (String × Cell)
+
+def lookupCell (k : String) : CRec → Option Cell
+  | [] => none
+  | (k', v) :: r => if k' = k then some v else lookupCell k r
+
+def Cell.isBatch : Cell → Bool | .col _ => true | .val _ => false
+
+/-- `len(x)`: a number has none -/
+def cellLen : Cell → Except Err Nat
+  | .col vs => .ok vs.length
+  | .val (.seq vs) => .ok vs.length
+  | .val (.atom _) => .error .typeError
+
+/-- `try: new[k] = interaction[k][i]  except: new[k] = interaction[k]` -/
+def cellAt (c : Cell) (i : Nat) : Cell :=
+  match c with
+  | .col vs => (match vs[i]? with | some v => .val v | none => c)
+  | .val (.seq vs) => (match vs[i]? with | some v => .val v | none => c)
+  | .val (.atom _) => c
+
+def rowsOf (r : CRec) (n : Nat) : List CRec :=
+  (List.range n).map (fun i => r.map (fun kv => (kv.1, cellAt kv.2 i)))
+
+/-- `Unbatch._unbatch` for one interaction; `bk` = the first batched key of the FIRST interaction -/
+def unbatchRec (bk : String) (r : CRec) : Except Err (List CRec) :=
+  match lookupCell bk r with
+  | none => .error .keyError
+  | some c => match cellLen c with
+    | .error e => .error e
+    | .ok n => .ok (rowsOf r n)
+
+def unbatchAll (bk : String) : List CRec → Except Err (List CRec)
+  | [] => .ok []
+  | r :: rs =>
+    match unbatchRec bk r with
+    | .error e => .error e
+    | .ok rows => match unbatchAll bk rs with
+      | .error e => .error e
+      | .ok rest => .ok (rows ++ rest)
+
+/-- `Unbatch().filter` as the code does it: whether and by which key to unbatch is decided on the
+first interaction only -/
+def unbatchG : List CRec → Except Err (List CRec)
+  | [] => .ok []
+  | first :: rest =>
+    match first.find? (fun kv => kv.2.isBatch) with
+    | none => .ok (first :: rest)                 -- nothing batched in the first one: passed through
+    | some (bk, _) => unbatchAll bk (first :: rest)
+
+/-- a fully batched interaction: every cell a column, all of one length -/
+def wfBatch (r : CRec) (n : Nat) : Prop := ∀ kv ∈ r, ∃ vs, kv.2 = .col vs ∧ vs.length = n
+
+/-- its rows, by transposition -/
+def rowsSpec (r : CRec) (n : Nat) : List CRec :=
+  (List.range n).map (fun i => r.filterMap (fun kv => match kv.2 with
+    | .col vs => (vs[i]?).map (fun v => (kv.1, Cell.val v))
+    | .val _ => none))
+
 end Coba.C09
